@@ -190,8 +190,10 @@ func genConnScript(rng *rand.Rand, jg *JGen, tag string, maxCalls int, allowFail
 				ifc = c01SharedArgs[4+rng.Intn(3)]
 			}
 			cs.Calls = append(cs.Calls, GenCall{Method: ifc + ".M", Flags: fl, Script: genScript(rng, jg, id, false)})
-		case k < 18 && rng.Intn(3) == 0:
+		case k < 18 && allowFail && rng.Intn(3) == 0:
 			// valid JSON that fails to decode as a call after flags were seen: ends the connection, must leave nothing behind
+			// (only where scripts may end their connection, i.e. not on TCP: a connection the service closes with pipelined
+			// calls still unread is reset, and a reset may destroy replies the client has not read yet)
 			cs.Calls = append(cs.Calls, GenCall{Raw: c10Poison[rng.Intn(len(c10Poison))]})
 		case k < 18 && rng.Intn(2) == 0:
 			// frames without a method member: answered like a call without method
